@@ -35,6 +35,55 @@ type GCSWorld struct {
 	ys    *yStore
 	Logs  []string
 	ctx   context.Context // context of the next request only (consumed by Do)
+	// remote, when set, carries every request over a real loopback HTTP connection to the same
+	// mux (transport fidelity: the recorder stub and the real server must agree)
+	remote *httptest.Server
+}
+
+// ServeOverHTTP switches the world to a real net/http server on a loopback socket.
+func (w *GCSWorld) ServeOverHTTP() {
+	w.remote = httptest.NewServer(w.mux)
+	w.r.Defer(w.remote.Close)
+}
+
+var remoteClient = &http.Client{
+	Transport:     &http.Transport{DisableCompression: true},
+	CheckRedirect: func(*http.Request, []*http.Request) error { return http.ErrUseLastResponse },
+}
+
+func (w *GCSWorld) doRemote(q HReq) *HResp {
+	target := w.remote.URL + q.Path
+	if len(q.Query) > 0 {
+		target += "?" + q.Query.Encode()
+	}
+	body := q.Body
+	hdr := map[string]string{}
+	for k, v := range q.Headers {
+		hdr[k] = v
+	}
+	if q.Gzip {
+		var zb bytes.Buffer
+		zw := gzip.NewWriter(&zb)
+		zw.Write(body)
+		zw.Close()
+		body = zb.Bytes()
+		hdr["Content-Encoding"] = "gzip"
+	}
+	req, err := http.NewRequest(q.Method, target, bytes.NewReader(body))
+	if err != nil {
+		harnessErr("cannot build remote request %s: %v", q, err)
+	}
+	for k, v := range hdr {
+		req.Header.Set(k, v)
+	}
+	res, err := remoteClient.Do(req)
+	if err != nil {
+		// the server dropped the connection (net/http does that when a handler panics)
+		return &HResp{Status: 0, Header: http.Header{}, Body: []byte("transport error: " + err.Error())}
+	}
+	defer res.Body.Close()
+	b, _ := io.ReadAll(res.Body)
+	return &HResp{Status: res.StatusCode, Header: res.Header, Body: b}
 }
 
 type yStore struct {
@@ -225,6 +274,9 @@ func (q HReq) build() (*http.Request, error) {
 
 // Do sends a request through the real mux. Panics propagate (net/http would swallow them).
 func (w *GCSWorld) Do(q HReq) *HResp {
+	if w.remote != nil {
+		return w.doRemote(q)
+	}
 	req, err := q.build()
 	if err != nil {
 		harnessErr("cannot build request %s: %v", q, err)
